@@ -80,4 +80,57 @@ Proof.
   - apply saturate_sound. intros y [].
   - apply closed_complete. apply saturate_closed; [constructor | intros y [] | simpl; lia].
 Qed.
+
+(* ---- the same iteration with logarithmic fuel: 2^k rounds by nesting (early exit makes extra rounds harmless) ---- *)
+Lemma add_new_incl_len news : forall S, incl news S -> length (add_new S news) = length S.
+Proof.
+  induction news as [|n ns IH]; simpl; intros S H; auto.
+  assert (E : add1 S n = S). { unfold add1. destruct (in_dec eq_dec n S); auto. exfalso. apply n0, H. left; auto. }
+  rewrite E. apply IH. intros x Hx. apply H. right; auto.
+Qed.
+
+Lemma saturate_stable fuel S : length (add_new S (step S)) = length S -> saturate fuel S = S.
+Proof. destruct fuel; simpl; auto. intros ->. rewrite Nat.eqb_refl. reflexivity. Qed.
+
+Lemma saturate_add n : forall m S, saturate (n + m) S = saturate m (saturate n S).
+Proof.
+  induction n as [|n IH]; simpl; intros m S; auto.
+  destruct (Nat.eqb_spec (length (add_new S (step S))) (length S)) as [E|NE]; auto.
+  symmetry. apply saturate_stable; auto.
+Qed.
+
+Fixpoint saturate2b (k : nat) (S : list X) : list X * bool :=
+  match k with
+  | 0 => let S' := add_new S (step S) in
+         if Nat.eqb (length S') (length S) then (S, true) else (S', false)
+  | Datatypes.S k' => let (S1, b1) := saturate2b k' S in
+                      if b1 then (S1, true) else saturate2b k' S1
+  end.
+Definition saturate2 (k : nat) (S : list X) : list X := fst (saturate2b k S).
+
+Lemma saturate2b_spec k : forall S,
+  fst (saturate2b k S) = saturate (2 ^ k) S /\
+  (snd (saturate2b k S) = true -> length (add_new (fst (saturate2b k S)) (step (fst (saturate2b k S)))) = length (fst (saturate2b k S))).
+Proof.
+  induction k as [|k IH]; intros S.
+  - simpl. destruct (Nat.eqb_spec (length (add_new S (step S))) (length S)) as [E|NE]; simpl; split; auto; discriminate.
+  - cbn [saturate2b]. destruct (IH S) as [E1 F1]. destruct (saturate2b k S) as [S1 b1]. simpl in E1, F1.
+    replace (2 ^ Datatypes.S k) with (2 ^ k + 2 ^ k) by (simpl; lia). rewrite saturate_add, <- E1.
+    destruct b1.
+    + simpl. split; auto. symmetry. apply saturate_stable. auto.
+    + apply IH.
+Qed.
+
+Lemma saturate2_pow k S : saturate2 k S = saturate (2 ^ k) S.
+Proof. apply saturate2b_spec. Qed.
+
+Theorem saturate_more n : S (length U) <= n -> saturate n [] = saturate (S (length U)) [].
+Proof.
+  intros H. replace n with (S (length U) + (n - S (length U))) by lia. rewrite saturate_add.
+  apply saturate_stable. apply add_new_incl_len.
+  apply saturate_closed; [constructor | intros y [] | simpl; lia].
+Qed.
+
+Theorem saturate2_lfp k : S (length U) <= 2 ^ k -> forall x, In x (saturate2 k []) <-> Der x.
+Proof. intros H x. rewrite saturate2_pow, (saturate_more _ H). apply saturate_lfp. Qed.
 End Fix.
